@@ -34,8 +34,12 @@ def commit_history(rng, n, heavy_delete=False, lazy=True):
         else:
             b = rng.choice(g.buckets)
             q = rng.random()
-            if q < 0.55:
+            if q < 0.50:
                 g.op_insert(b)
+            elif q < 0.54:
+                g.op_insert_carrying(b)
+            elif q < 0.57:
+                g.op_bulk_unknown_ids(b)
             elif q < 0.63:
                 g.op_bulk(b)
             elif q < 0.75:
